@@ -147,6 +147,38 @@ def run(R, tier):
     OUT = ("push_str", "push_byte", "push_ascii", "data_separator", "header_separator")
     CTRL = ("message_start", "message_end", "response_unit")
     n_w = 0
+
+    def role(b):
+        owner = b.npath
+        in_fmt_impl = "parser::response::Formatter" in (b.impl_trait or "") or (b.in_trait or "").endswith("response::Formatter")
+        in_resp_data = "ResponseData" in (b.impl_trait or "") or "format_response_data" in owner
+        in_unit = owner.startswith("scpi::parser::response::ResponseUnit::")
+        in_disp = owner in ("scpi::tree::Node::run_tokens", "scpi::tree::Node::exec")
+        return in_fmt_impl, in_resp_data, in_unit, in_disp
+
+    # callers of every workspace function (for helper functions that write on behalf of a ResponseData impl)
+    callers = {}
+    bodies = {}
+    for unit in P.units:
+        for b in unit.bodies:
+            bodies[b.npath] = b
+            for c in b.calls(with_promoted=True):
+                callers.setdefault(c.rname, set()).add(b.npath)
+                callers.setdefault(c.name, set()).add(b.npath)
+
+    def writer_ok(npath, seen=()):
+        b = bodies.get(npath)
+        if b is None:
+            return False
+        f, r_, un, _ = role(b)
+        if f or r_ or un:
+            return True
+        if npath in seen:
+            return False
+        cs = callers.get(npath, set())
+        # a helper is a legitimate writer only if it is not public API surface of its own: every call site is a legitimate writer
+        return bool(cs) and all(writer_ok(c, seen + (npath,)) for c in cs)
+
     for unit in P.units:
         for b in unit.bodies:
             for c in b.calls(with_promoted=True):
@@ -154,13 +186,10 @@ def run(R, tier):
                     continue
                 n_w += 1
                 owner = b.npath
-                in_fmt_impl = "parser::response::Formatter" in (b.impl_trait or "") or b.in_trait == "parser::response::Formatter" or (b.in_trait or "").endswith("response::Formatter")
-                in_resp_data = "ResponseData" in (b.impl_trait or "") or "format_response_data" in owner
-                in_unit = owner.startswith("scpi::parser::response::ResponseUnit::")
-                in_disp = owner in ("scpi::tree::Node::run_tokens", "scpi::tree::Node::exec")
+                in_fmt_impl, in_resp_data, in_unit, in_disp = role(b)
                 if c.method in OUT:
-                    ok = in_fmt_impl or in_resp_data or in_unit
-                    R.check(ok, "R10.7", "%s<-%s" % (c.method, owner), "output written from a formatter / ResponseData / ResponseUnit", "%s writes response bytes (%s): only formatters, ResponseData impls and ResponseUnit may, so that a non-query unit contributes nothing" % (owner, c.method), where=c.line)
+                    ok = writer_ok(owner)
+                    R.check(ok, "R10.7", "%s<-%s" % (c.method, owner), "output written from a formatter / ResponseData impl (or its helper) / ResponseUnit", "%s writes response bytes (%s): only formatters, ResponseData impls (and helpers called only by them) and ResponseUnit may, so that a non-query unit contributes nothing" % (owner, c.method), where=c.line)
                 elif c.method in CTRL:
                     ok = in_fmt_impl or in_disp
                     R.check(ok, "R10.7", "%s<-%s" % (c.method, owner), "framing call from the dispatcher", "%s calls %s: only the dispatcher frames messages and units" % (owner, c.method), where=c.line)
